@@ -679,13 +679,28 @@ func (ex *Exec) valueEq(st *State, x, y Value) *Term {
 			}
 			return c.False
 		}
-		if a.Obj != b.Obj || !samePath(a.Path, b.Path) {
+		if a.Obj != b.Obj {
 			return c.False
 		}
 		if a.Sym != nil || b.Sym != nil {
-			if a.Sym != nil && b.Sym != nil {
-				return c.Eq(a.Sym, b.Sym)
+			// normalise both to (base path, index term)
+			norm := func(p Ptr) ([]int, *Term, bool) {
+				if p.Sym != nil {
+					return p.Path, p.Sym, true
+				}
+				if len(p.Path) == 0 {
+					return nil, nil, false
+				}
+				return p.Path[:len(p.Path)-1], c.BV(64, uint64(p.Path[len(p.Path)-1])), true
 			}
+			pa, ia, ok1 := norm(a)
+			pb, ib, ok2 := norm(b)
+			if !ok1 || !ok2 || !samePath(pa, pb) {
+				return c.False
+			}
+			return c.Eq(ia, ib)
+		}
+		if !samePath(a.Path, b.Path) {
 			return c.False
 		}
 		return c.True
